@@ -161,7 +161,10 @@ def step (s : State) (w : List String) : State × String :=
       if h == "?" then (s, s!"R render {toHex text} admissible={adm}")
       else match parseHex h with
         | some bs =>
-          if text == bs then ({ s with input := bs, eof := -2, expect := some (Render.norm f) }, s!"R ok len={bs.length}")
+          if text == bs then
+            -- the forest is what has to be read back when the name restriction words permit its names
+            let ex := if Render.forestFits s.sect s.opt f then some (Render.norm f) else none
+            ({ s with input := bs, eof := -2, expect := ex }, s!"R ok len={bs.length}")
           else (s, s!"R render-differs {toHex text}")
         | none => (s, "bad-op")
     | _, _, _ => (s, "bad-op")
@@ -272,7 +275,8 @@ def step (s : State) (w : List String) : State × String :=
       let text := Render.render st (Render.decorOf d) f
       if text == bs then
         let xp' := s.xp.map fun xp => if xp.opened && xp.lineZero then { xp with rest := bs } else xp
-        ({ s with xfile := some bs, xexpect := some (Render.norm f), xp := xp' }, s!"R ok len={bs.length}")
+        let fits := match s.xp with | some xp => Render.forestFits xp.sect xp.opt f | none => false
+        ({ s with xfile := some bs, xexpect := (if fits then some (Render.norm f) else none), xp := xp' }, s!"R ok len={bs.length}")
       else (s, s!"R render-differs {toHex text}")
     | _, _, _, _ => (s, "bad-op")
   | ["x", "open"] =>
